@@ -387,4 +387,39 @@ def judgeConc (line : String) : String :=
     | _, _ => "skip parse"
   | _, _ => "skip parse"
 
+/-- `MID.<algo> scen=<A|B|C> during=<present|pending|constraints>,… after=<present|pending|constraints>`:
+the persistent record of a bundle read INSIDE a convergence layer's `Send` (a transmission is in progress,
+nothing has been reported yet) and after the failing `Send` returned. Spec (`Retained` at every moment, not
+only between events — the crash-point part of the property): the record exists and is marked pending. -/
+def judgeMid (line : String) : String :=
+  let fs := Driver.fields line
+  match kv fs "during", kv fs "after", kv fs "scen" with
+  | some d, some a, some scen =>
+    let bad (r : String) : Bool :=
+      match r.splitOn "|" with
+      | [p, pe, _] => p != "1" || pe != "1"
+      | _ => true
+    if d == "-" then "skip no-transmission-observed"
+    else if (d.splitOn ",").any bad then s!"specfail retained-not-pending-while-transmission-in-progress scen={scen} during={d}"
+    else if bad a then s!"specfail retained-not-pending-after-failed-transmission scen={scen} after={a}"
+    else "ok"
+  | _, _, _ => if line.endsWith "panic" then "specfail panic-in-event" else "skip parse"
+
+/-- `OVL.<algo> blocked=… returned=… direct=… other=… panics=…`: a peer appeared while another run of the
+pending-bundles job was blocked inside a `Send`. Spec (`SentToDestination`, `EpidemicFlood`): the call made
+for the new peer returned, and by then the bundle waiting for that peer's node was handed to it (under
+epidemic routing also the other waiting bundle, which that peer does not have). -/
+def judgeOvl (line : String) : String :=
+  let fs := Driver.fields line
+  let algo := ((fs.head?.getD "").drop 4).toString
+  match kv fs "blocked", kv fs "returned", kv fs "direct", kv fs "other", kv fs "panics" with
+  | some b, some r, some d, some o, some p =>
+    if p != "0" then "specfail panic-in-event"
+    else if b != "1" then "skip first-run-not-blocked"
+    else if r != "1" then s!"specfail peer-appearance-blocked-by-another-retry-run algo={algo}"
+    else if d != "1" then s!"specfail direct-not-sent-while-another-retry-run-in-progress algo={algo}"
+    else if algo == "epidemic" && o != "1" then s!"specfail flood-missing-while-another-retry-run-in-progress"
+    else "ok"
+  | _, _, _, _, _ => "skip parse"
+
 end NodeLine
